@@ -26,7 +26,7 @@ CLAIMS = {
             "against the real PipelineRuntimeStatus, lock-step executor scenarios; `check_C02` (moves follow the table, counts, disjoint live "
             "containers) on every implementation trace.",
             "Props/C02.lean, Proofs/Live.lean, Proofs/Built.lean; the live-container theorem assumes the tick succeeds and every operator has at least one segment"),
-    "C03": ("Lean theorems on the pool model (conservation of CPU and RAM over active + suspending containers, non-negativity, whole-batch rejection); "
+    "C03": ("Lean theorems on the pool model (conservation of CPU and RAM over active + suspending containers, non-negativity, whole-batch rejection; an allocation is returned in the tick the container completes: in every ready world a container that holds an allocation as a running container has an operator left - `running_containers_have_work_left`, the clause `returned-when-finished` of the checker); "
             "tie: lock-step of the real Executor on directed sequences (overselling batches, suspensions run to their end, kills); `check_C03` on every "
             "implementation trace.", "Props/C03.lean"),
     "C04": ("Lean theorems on the pool model (after the OOM killer every running container is within its allocation; reported usage = sum over running "
@@ -71,9 +71,9 @@ CLAIMS.update({
 CLAIMS.update({
     "C06": ("Lean theorems: the counters the main loop accumulates tick by tick equal an independent recount of the run's history (induction over ticks); arrivals and completions "
             "per priority partition the totals; mean and p99 (numpy's linear rule, exact rationals) are over exactly the completed latencies; empty classes / empty runs give "
-            "count 0 and undefined latency. Tie: run_simulator with recording workload, scheduler and executor wrappers; the history recounted by the Lean model is compared "
+            "count 0 and undefined latency; THE TICK IN WHICH THE LAST OPERATOR COMPLETES IS A SWEPT TICK (`completion_comes_with_a_success_result_in_the_same_tick`, `pipeline_is_counted_in_the_tick_its_last_operator_completes`): an executor tick loses no container (every container running or being written out when it begins and every one it starts is found again at its end, in a pool list or among the results, under its number and with its operator list), so when all operators of a pipeline are COMPLETED after a tick and one was not before, the tick returns a successful result for that pipeline and the completion sweep - which only looks when there are results - records it in that very tick (hypothesis: each container holds operators of one pipeline, an invariant handed on by the tick and part of the priority loop invariant). Tie: run_simulator with recording workload, scheduler and executor wrappers; the history recounted by the Lean model is compared "
             "with the returned SimulatorStats and with every pipeline's recorded finish tick (= tick of its last operator's completion); uncontended pipelines finish in exactly "
-            "the ticks their operators need.", "Props/C06.lean, Model/Sweep.lean: the completion bookkeeping of the main loop is modelled (`sweep`) with theorems: it never records a pipeline twice (consistency invariant kept by arrivals and sweeps), "
+            "the ticks their operators need.", "Props/C06.lean, Proofs/Cover.lean, Proofs/Complete.lean, Model/Sweep.lean: the completion bookkeeping of the main loop is modelled (`sweep`) with theorems: it never records a pipeline twice (consistency invariant kept by arrivals and sweeps), "
             "records exactly the outstanding pipelines all of whose operators are COMPLETED in a tick with results, and completion is final so nothing is recorded later than the next sweep; tie: the model's finish ticks and "
             "latencies for the run's history against the simulator's own records"),
     "C07": ("PARTIAL. Lean theorems are thin and by construction (the model is a function of its inputs, the generator's parameters contain no policy setting, the model has no identifier "
@@ -82,7 +82,7 @@ CLAIMS.update({
             "Props/C07.lean; cross-process determinism is CPython runtime behaviour the model cannot exhibit"),
     "C19": ("PARTIAL. Lean theorems on the bridge's bookkeeping: a call is made iff something arrived or finished or the poll interval passed; new and known pipelines are disjoint; "
             "every call lists every known pipeline with its current completion flag, a pipeline stays known until the call that reports it complete and arrivals become known "
-            "(so a completed pipeline IS reported, once); a pipeline reported complete is dropped and never reported again; reply decoding is the identity on registered operators. Tie: loop-back HTTP server recording every "
+            "(so a completed pipeline IS reported, once); a pipeline reported complete is dropped and never reported again; EXACTLY ONCE OVER A WHOLE RUN (`completed_pipeline_is_reported_complete_exactly_once`): if a known pipeline is incomplete during some rounds and complete from a round on in which the executor also returned a result (always the case when a pipeline completes: C06), then no earlier call lists it as complete, that round makes a call listing it as complete, and no later call mentions it; reply decoding is the identity on registered operators. Tie: loop-back HTTP server recording every "
             "request body, compared with the executor's real state and with the Lean bookkeeping model; the peer's decisions replayed in-process give identical statistics.",
             "Props/C19.lean; sockets/JSON/requests exercised not modelled; the Go reference cannot be built here"),
 })
@@ -102,7 +102,7 @@ CLAIMS.update({
             "state), and it succeeds when the gates pass; (2) WHOLE RUNS: the naive scheduler in closed loop with the executor never raises, for every sequence of arrival batches, with "
             "single-operator containers (= the `eudoxia init` starter scheduler) and with multi-operator containers (the default), from any ready world with well-formed pipelines - by induction over "
             "ticks, carrying the ownership/readiness invariants and 'a pipeline with an operator in a container has no operator waiting'; a concrete world (diamond DAG, two pools) meets every "
-            "hypothesis (non-vacuity, checked by the kernel); likewise PRIORITY WITH SINGLE-OPERATOR CONTAINERS in closed loop with the executor never raises over whole runs (`priority_single_operator_run_never_raises`: no overcommit, pipelines arriving together distinct; the invariant carries 'queues hold distinct ready operators, one per job, with positive retry sizes' and 'no container is ever suspendable', so the pre-emption machinery provably stays idle in this mode; same concrete world); PRIORITY-POOL WITH MULTI-OPERATOR CONTAINERS never raises over whole runs (`priority_pool_multi_operator_run_never_raises`: neither the executor, nor the Assignment constructor, nor the scheduler's own two assertions; the proof carries through every phase of the executor tick that a failed result's unfinished suffix is non-empty and all FAILED, and that a pool's free CPU is zero exactly when its free RAM is); PRIORITY WITH MULTI-OPERATOR CONTAINERS - the mode in which it pre-empts - never raises over whole runs (`priority_multi_operator_run_never_raises`, no overcommit: the invariant carries the whole suspension life cycle - requested once, of a running suspendable container; written out with the job remembered under a container number that is never re-used; handed back with the unfinished suffix PENDING; re-queued exactly once with exactly that suffix and the old allocation - together with 'each queued job is all the unfinished work of its pipeline'; concrete world checked by the kernel); `executor_tick_with_suspensions_succeeds_when_the_gates_pass`; (3) per round of priority / priority-pool: no pool is asked for more CPU or RAM than it has free, assignments are a chain of accepted "
+            "hypothesis (non-vacuity, checked by the kernel); likewise PRIORITY WITH SINGLE-OPERATOR CONTAINERS in closed loop with the executor never raises over whole runs (`priority_single_operator_run_never_raises`: no overcommit, pipelines arriving together distinct; the invariant carries 'queues hold distinct ready operators, one per job, with positive retry sizes' and 'no container is ever suspendable', so the pre-emption machinery provably stays idle in this mode; same concrete world); PRIORITY-POOL WITH MULTI-OPERATOR CONTAINERS never raises over whole runs (`priority_pool_multi_operator_run_never_raises`: neither the executor, nor the Assignment constructor, nor the scheduler's own two assertions; the proof carries through every phase of the executor tick that a failed result's unfinished suffix is non-empty and all FAILED, and that a pool's free CPU is zero exactly when its free RAM is); PRIORITY WITH MULTI-OPERATOR CONTAINERS - the mode in which it pre-empts - never raises over whole runs (`priority_multi_operator_run_never_raises`, no overcommit: the invariant carries the whole suspension life cycle - requested once, of a running suspendable container; written out with the job remembered under a container number that is never re-used; handed back with the unfinished suffix PENDING; re-queued exactly once with exactly that suffix and the old allocation - together with 'each queued job is all the unfinished work of its pipeline'; concrete world checked by the kernel); `executor_tick_with_suspensions_succeeds_when_the_gates_pass`; FROM EVERY FRESH WORLD (`*_runs_from_every_fresh_world`, six theorems): for any configuration, any pools and any registered workload of well-formed pipelines (each lists existing operators once, every operator has a segment and knows its pipeline, the listing is topological; arriving pipelines distinct, non-empty, untouched) and any arrival batches, the run reaches its last tick - these hypotheses are decidable (`checked_hypotheses_are_the_theorems_hypotheses`) and the model driver evaluates them on every workload the closed-loop tie runs; (3) per round of priority / priority-pool: no pool is asked for more CPU or RAM than it has free, assignments are a chain of accepted "
             "constructions (no operator twice, all PENDING/FAILED before), priority's suspensions are accepted by verify_valid_suspend; overbook: C18. NOT proved: priority-pool with single-operator containers (false for the shipped code: known finding D11); priority under memory overcommit; that a real run's initial world meets the hypotheses beyond the concrete examples; overbook's whole-run theorem is in Props/C18; parameter validation and end-of-run aggregation of run_simulator are exercised, "
             "not modelled. Tie: closed-loop lock-step of each real scheduler + real Executor against the model on generated configurations (tiny pools, coarse ticks, zero-tick segments, both container "
             "modes, DAGs, fractional pool sizes), run_simulator end-to-end incl. the `eudoxia init` template and runs shorter than a tick; `check_C08` on every implementation trace.",
@@ -111,21 +111,21 @@ CLAIMS.update({
             "queue is served only if the higher one was drained, and anything left waiting implies every pool is out of free CPU or RAM in the scheduler's accounting (strict priority + work "
             "conservation); the chosen pool is open and has the most free RAM; suspensions only while a query job is still waiting, at most one per waiting query job, only active non-query "
             "containers at an operator boundary; a job remembered under a container found in a suspended list is put back into its queue; OVER WHOLE RUNS (`suspended_work_is_offered_again_whole_in_every_round_of_every_run`): under the loop invariant of priority with multi-operator containers - which every round and tick of every run re-establishes (C08) - every container whose write-out ended in the last tick gets a job holding exactly its unfinished suffix into the waiting queues in the very next round. before its main loop a round only appends to the queues (`queues_only_grow_at_the_end`), so with head-first consumption equal-priority work is served "
-            "first come, first served across rounds. NOT proved: the link from queue membership to 'ready pending operator' (checked on traces). Tie: closed-loop lock-step incl. preemption scenarios with single-tick suspensions, exact-fit pools; "
+            "first come, first served across rounds. WHAT WAITS IN THE QUEUES at every round of every run (`queued_operators_are_ready_and_distinct_single`, `queued_jobs_are_ready_whole_and_distinct`, from the loop invariants of C08): distinct operators, PENDING or FAILED, parents COMPLETED (or earlier in the same job, the job being all the unfinished work of its pipeline, in multi-operator mode) - the link from queue membership to 'ready pending operator'. Tie: closed-loop lock-step incl. preemption scenarios with single-tick suspensions, exact-fit pools; "
             "`check_C12` (order, conservation, preemption rules, re-offer) on every implementation trace.", "Props/C12.lean"),
     "C16": ("Lean theorems: the class invariant of the three queues holds initially and is kept by every round (so at every round of every run); given it, every assignment of query or "
             "interactive work goes to pool 0 and every other one to pool 1, first attempts and retries alike; the scheduler never suspends; a failed container's unfinished operators are "
             "queued together as one job; a retry whose doubled request reaches half of the pool is never assigned; the scheduler's own assertion cannot be tripped by the Assignment "
             "constructor. OVER WHOLE RUNS (`classes_stay_apart_over_whole_runs`): from a world in which every container sits where its class belongs (e.g. a fresh one), every run of scheduler + executor "
             "that reaches its end - and every prefix of it - ends in such a world: at no tick boundary is there a batch container on pool 0, a query/interactive container on pool 1, or a write-out in "
-            "progress, retries included (the container property is carried through ticks, kills and collections by a generic 'kept by the executor' lemma); with multi-operator containers the run is moreover proved to reach its end (`run_completes_with_classes_apart`, concrete world `run_completes_in_a_concrete_world`), so the separation statement is not vacuous. Tie: closed-loop lock-step on two pools with mixed priorities and OOM retries; `check_C16` on every implementation trace.", "Props/C16.lean"),
+            "progress, retries included (the container property is carried through ticks, kills and collections by a generic 'kept by the executor' lemma); with multi-operator containers the run is moreover proved to reach its end (`run_completes_with_classes_apart`, concrete world `run_completes_in_a_concrete_world`), so the separation statement is not vacuous; and FROM EVERY FRESH WORLD (`classes_stay_apart_from_every_fresh_world`): any configuration with multi-operator containers, any two pools with some CPU and RAM, any registered workload of well-formed pipelines, any arrivals. Tie: closed-loop lock-step on two pools with mixed priorities and OOM retries; `check_C16` on every implementation trace.", "Props/C16.lean"),
     "C17": ("Lean theorems about the naive scheduler's round for every queue and world: at most one container per pool, sized to all free CPU and RAM of that pool; pools with nothing free are "
             "skipped; FIRST COME FIRST SERVED: each pool's container goes to the first pipeline of the queue that is neither finished nor failed and has something ready, the pipelines served in a round are a subsequence of (queue ++ arrivals) in that order, the part not reached stays in place ahead of the ones scanned and kept (`first_eligible_pipeline_is_served`, `pipelines_are_served_in_queue_order`, `round_is_first_come_first_served`); work handed out belongs to a pipeline without failed operators and (single-operator mode) is one ready operator; no suspensions; "
             "in multi-operator mode everything put into one container is in dependency order; and the closed loop naive + executor never raises over whole runs in either mode (C08 theorems). "
             "Tie: closed-loop lock-step; `check_C17` on every implementation trace.", "Props/C17.lean"),
     "C18": ("Lean theorems about the overbook scheduler's round, for every queue and world: every container gets exactly one operator, one CPU and a memory limit equal to its pool's "
             "whole RAM, on a pool that still had a free CPU in the scheduler's snapshot (the snapshot never goes negative: CPU-bound); the operator's pipeline has fewer than three failed "
-            "containers; operators are left in the queue only when no pool has a free CPU; never suspends; and the CLOSED LOOP overbook + executor (overcommit on, either container mode) never raises over whole runs, for every sequence of arrival batches (`overbook_run_never_raises`, queue invariant + executor gate theorems; the invariant - one operator per container, no write-out in progress - holds again in the world the run ends in, hence at every tick boundary; a concrete world meets the hypotheses). Tie: closed-loop lock-step with overcommit and OOM kills; `check_C18` on every implementation trace.", "Props/C18.lean"),
+            "containers; operators are left in the queue only when no pool has a free CPU; never suspends; and the CLOSED LOOP overbook + executor (overcommit on, either container mode) never raises over whole runs, for every sequence of arrival batches (`overbook_run_never_raises`, queue invariant + executor gate theorems; the invariant - one operator per container, no write-out in progress - holds again in the world the run ends in, hence at every tick boundary; a concrete world meets the hypotheses; `overbook_runs_from_every_fresh_world`: any configuration with overcommit on, any pools with some RAM, any registered workload whose pipelines list existing operators once and give each a segment, any arrivals). Tie: closed-loop lock-step with overcommit and OOM kills; `check_C18` on every implementation trace.", "Props/C18.lean"),
 })
 CLAIMS = {k: v for k, v in CLAIMS.items() if k in READY}
 
